@@ -315,6 +315,25 @@ func opLane(w *World, op *Op) {
 		e2.Nonce++
 		m2 := EthMsg(SignEth(wl, &e2), wl.Addr)
 		bz = WrapEth(ethMsg, ethTx.Gas(), fullFee, &WrapOpts{ExtraMsgs: []sdk.Msg{m2}})
+	case "many_eth":
+		// three to six Ethereum messages (consecutive nonces, or the same message repeated) in one envelope whose fee
+		// and gas are those of the first message, or the sums
+		rr := newRng(uint64(op.Ref) + 23)
+		n := 3 + rr.IntN(4)
+		same := rr.IntN(3) == 0
+		var extra []sdk.Msg
+		for i := 1; i < n; i++ {
+			e2 := *e
+			if !same {
+				e2.Nonce += uint64(i)
+			}
+			extra = append(extra, EthMsg(SignEth(wl, &e2), wl.Addr))
+		}
+		fee, gas := fullFee, ethTx.Gas()
+		if rr.IntN(2) == 0 {
+			fee, gas = new(big.Int).Mul(fullFee, big.NewInt(int64(n))), gas*uint64(n)
+		}
+		bz = WrapEth(ethMsg, ethTx.Gas(), fee, &WrapOpts{ExtraMsgs: extra, GasOverride: &gas})
 	case "eth_beside_send":
 		bz = WrapEth(ethMsg, ethTx.Gas(), fullFee, &WrapOpts{ExtraMsgs: []sdk.Msg{send}})
 	case "send_beside_eth_signed":
@@ -404,7 +423,7 @@ func opLane(w *World, op *Op) {
 }
 
 var laneRecipes = []string{"valid", "memo", "memo_blank", "timeout", "fee_payer", "fee_granter", "no_ext_opt", "extra_ext_opt", "foreign_ext_opt_only", "non_critical_ext_opt", "non_critical_ext_opt_only", "fee_lower", "fee_higher",
-	"fee_other_denom", "gas_higher", "gas_lower", "two_eth", "eth_beside_send", "send_beside_eth_signed", "with_signature", "raw_signature_no_signer_info", "exec_eth", "exec_eth", "exec_exec_sibling_eth",
+	"fee_other_denom", "gas_higher", "gas_lower", "two_eth", "many_eth", "many_eth", "eth_beside_send", "send_beside_eth_signed", "with_signature", "raw_signature_no_signer_info", "exec_eth", "exec_eth", "exec_exec_sibling_eth",
 	"grant_eth", "exec_vesting", "exec_send", "exec_eth_of_another_sender"}
 
 func genC07(rng *rand.Rand, seed uint64, tier string) *Script {
